@@ -13,9 +13,9 @@ NAMES = {0: "undefined", 1: "soma", 2: "axon", 3: "basal", 4: "apical", 5: "cust
 
 def forced_max_branch_len(path, viol):
     """dense tracings in which every traced segment is far below max_branch_len, so the file is splittable:
-    the total length must not depend on max_branch_len.  _split_branch_equally cuts by NUMBER of points; when the
-    first piece of a stem of a single-point soma is [soma, first neurite point] (traced length 0 -> 1 um) or the
-    first piece of the root section is a single point (-> 2 r), the total changes: known finding F63."""
+    the total length must not depend on max_branch_len.  (Before the repairs of F25 / F63, _split_branch_equally cut by
+    NUMBER of points: the first piece of a stem of a single-point soma could be [soma, first neurite point] (traced
+    length 0 -> 1 um) and the first piece of the root section a single point (-> 2 r); these are the directed cases.)"""
     import warnings
     import numpy as np
     import jaxley as jx
@@ -56,7 +56,7 @@ def forced_max_branch_len(path, viol):
             viol.append({"kind": "max_branch_len splitting changed the total cable length of a dense tracing", "file": name, "swc_rows": [list(r) for r in rows],
                          "max_branch_len": mbl, "total_without": t0, "total_with": t1,
                          "branch_lengths_with": [float(x) for x in c1.nodes["length"]],
-                         "finding_class": "max_branch_len_degenerate_first_piece" if degenerate else None})
+                         "degenerate_piece": degenerate, "finding_class": None})
     return n
 
 
@@ -141,13 +141,12 @@ def run(ctx):
                 cell3 = jx.read_swc(path, ncomp=1, max_branch_len=mbl, min_radius=mr)
             evals += 1
             L3 = [float(cell3.branch(b).nodes["length"].sum()) for b in range(len(cell3.comb_parents))]
-            if not coarse and abs(sum(L3) - sum(L)) > 1e-6 * max(1.0, sum(L)):
+            if abs(sum(L3) - sum(L)) > 1e-6 * max(1.0, sum(L)):
                 viol.append(dict(case, kind="max_branch_len splitting changed the total length", max_branch_len=mbl, got=sum(L3), expected=sum(L)))
             if not coarse and max(L3) > mbl + 1e-9 and max(L3) > max([x for x in L if x <= mbl] + [0.0]) + 1e-9:
                 viol.append(dict(case, kind="a branch is longer than max_branch_len after splitting", max_branch_len=mbl, longest=max(L3)))
         except Exception as ex:
-            viol.append(dict(case, kind="read_swc with max_branch_len raised", max_branch_len=mbl, error=repr(ex)[:300],
-                             finding_class="max_branch_len_on_coarse_tracing_raises" if coarse else None))
+            viol.append(dict(case, kind="read_swc with max_branch_len raised", max_branch_len=mbl, error=repr(ex)[:300], coarse=coarse, finding_class=None))
         # the line-by-line model of the reader's sectioning loop (Model/SwcRead.v; C16_sectioning_loop_correct
         # is a theorem about it) must produce exactly what the code's loop produces; the generated
         # file must satisfy the theorem's well-formedness hypotheses
@@ -209,8 +208,8 @@ def run(ctx):
         from jaxley.utils.cell_utils import _split_branch_equally
         sp_jobs, sp_exprs = [], []
         for _k in range(ctx.budget(20, 150)):
-            npts = rng.randint(2, 30)
-            npieces = rng.randint(2, min(10, npts))
+            npts = rng.randint(1, 30)
+            npieces = rng.randint(1, 12)            # also more pieces than traced segments
             pts = list(range(1, npts + 1))
             real = [[int(x) for x in p] for p in _split_branch_equally(np.asarray(pts), npieces)]
             sp_jobs.append((pts, npieces, real))
